@@ -1,4 +1,7 @@
 mod bits;
+mod c02;
+mod c03;
+mod c07;
 mod common;
 mod cprref;
 mod e1;
@@ -22,8 +25,11 @@ fn main() {
         _ => Tier::Quick,
     };
     let code = match args[1].as_str() {
+        "C02" => c02::run(tier),
+        "C03" => c03::run(tier),
         "C04" => fields::c04(tier),
         "C06" => fields::generic(tier, "C06", &[6]),
+        "C07" => c07::run(tier),
         "C08" => fields::generic(tier, "C08", &[8]),
         "C09" => fields::generic(tier, "C09", &[9]),
         "C10" => fields::generic(tier, "C10", &[10]),
